@@ -106,6 +106,7 @@ structure L3Ok (u : Mmu) (pend : List (Int × Int)) (mem flat : List Byte) : Pro
   coh : Coh u.l1d.lines mem flat
   pok : ∀ p ∈ pend, 0 ≤ p.1 ∧ p.1 % 64 = 0 ∧ p.2 = p.1 + 64 ∧ ∀ l ∈ u.l1d.lines, l.lo ≠ p.1
   pdist : pend.Pairwise (fun p q => p.1 ≠ q.1)
+  iwf : Proofs.Mvp3.IWf 64 u.l1i
 
 theorem removePending_sublist (lo : Int) : ∀ (pend : List (Int × Int)), (removePending lo pend).Sublist pend := by
   intro pend
@@ -179,13 +180,13 @@ theorem l3_lookup {u : Mmu} {pend : List (Int × Int)} {mem flat : List Byte} (h
     obtain ⟨bytes, u', e1, e2, e3, e4, e5, e6⟩ := getFromL3_hit pend h.wf h.coh a0 as hok hres
     exact ⟨bytes, u', e1, e2, ⟨e3, e4, fun p hp => by
       obtain ⟨p1, p2, p3, p4⟩ := h.pok p hp
-      exact ⟨p1, p2, p3, fun l hl => p4 l (e5.mem_iff.mp hl)⟩, h.pdist⟩, e6⟩
+      exact ⟨p1, p2, p3, fun l hl => p4 l (e5.mem_iff.mp hl)⟩, h.pdist, by rw [e2]; exact h.iwf⟩, e6⟩
   · right
     rw [getFromL3_miss pend a0 as h0 hend hmiss]
     split
     · exact Or.inl rfl
     · rename_i hnp
-      refine Or.inr ⟨rfl, h.wf, h.coh, ?_, ?_⟩
+      refine Or.inr ⟨rfl, h.wf, h.coh, ?_, ?_, h.iwf⟩
       · intro p hp
         rcases List.mem_append.mp hp with hp | hp
         · exact h.pok p hp
@@ -227,14 +228,14 @@ theorem l3_fill {u : Mmu} {pend : List (Int × Int)} {mem flat : List Byte} (h :
     simp only [hal, f2, bind, Except.bind, pure, Except.pure]
   have hne := removePending_ne (base 64 a0.toInt) pend h.pdist ⟨p, hpm, hplo⟩
   have hl1 : L3Ok u1 (removePending (base 64 a0.toInt) pend) mem1 flat := by
-    refine ⟨f4, f5, fun q hq => ?_, h.pdist.sublist (removePending_sublist _ _)⟩
+    refine ⟨f4, f5, fun q hq => ?_, h.pdist.sublist (removePending_sublist _ _), by rw [f3]; exact h.iwf⟩
     obtain ⟨q1, q2, q3, q4⟩ := h.pok q ((removePending_sublist _ _).subset hq)
     refine ⟨q1, q2, q3, fun l hl => ?_⟩
     rcases f7 l hl with h' | h'
     · exact q4 l h'
     · rw [h']; exact fun hc => hne q hq hc.symm
   obtain ⟨bytes, u2, e1, e2, e3, e4, e5, e6⟩ := getFromL3_hit (removePending (base 64 a0.toInt) pend) f4 f5 a0 as hok f6
-  refine ⟨line, u1, mem1, bytes, u2, f1, hpush, e1, e2.trans f3, ⟨e3, e4, fun q hq => ?_, hl1.pdist⟩, e6⟩
+  refine ⟨line, u1, mem1, bytes, u2, f1, hpush, e1, e2.trans f3, ⟨e3, e4, fun q hq => ?_, hl1.pdist, by rw [e2]; exact hl1.iwf⟩, e6⟩
   obtain ⟨q1, q2, q3, q4⟩ := hl1.pok q hq
   exact ⟨q1, q2, q3, fun l hl => q4 l (e5.mem_iff.mp hl)⟩
 
